@@ -20,8 +20,10 @@ class ENotifer(object):
         if resource:
             resource_listeners = resource.listeners
             resource_eternals = resource._eternal_listener
-        listeners = chain(resource_eternals, resource_listeners,
-                          self._eternal_listener, self.listeners)
+        # (a snapshot: a listener may take itself off the list while it is
+        # told, and the next one must still hear of this change)
+        listeners = list(chain(resource_eternals, resource_listeners,
+                               self._eternal_listener, self.listeners))
         for listener in listeners:
             listener.notifyChanged(notification)
 
